@@ -324,3 +324,13 @@ package haproxy
 //@   assume-pre CreateBackends Backends).Clear
 //@   at call Clear#1 assert old-state: $arg0 == old(c.backends)
 //@ end
+
+// C11 — every re-created backend gets its path configuration computed
+// (NeedACL builds it as a side effect): without it the next comparison of an
+// unchanged backend sees a difference and reloads
+//@ count NeedACL = (*types.Backend).NeedACL
+//@ func (*config).WriteBackendMaps#acl
+//@   props C11
+//@   loop 1 step computed: calls(NeedACL) >= $head(calls(NeedACL)) + 1
+//@   loop 2 invariant kept: calls(NeedACL) >= $headof(1, calls(NeedACL)) + 1
+//@ end
